@@ -285,6 +285,83 @@ def is_ghost(c, tag):
 
 
 # =============================================================================================
+# addons/readfile.py::ReadFile.load_flows (async): flows reach the master as they are read, so the complete flows before
+# a truncation point are loaded BEFORE the flow-read error of the partial record is reported
+
+RF = "mitmproxy.addons.readfile:ReadFile"
+
+
+class StubMaster:
+    """stand-in for ctx.master: load_flow is an environment awaitable (suspension point)"""
+
+    async def load_flow(self, f):  # pragma: no cover - replaced by a summary
+        raise NotImplementedError
+
+
+class StubFilter:
+    """a compiled filter: matches the flows whose ghost attribute `keep` is set"""
+
+    def __call__(self, f):
+        return f.keep
+
+
+def gen_then(vc, items, error):
+    """a generator that yields `items` and then ends, or raises `error` (class, message) - FlowReader.stream by its contract"""
+    if vc.mode == "native":
+        def g():
+            for x in items:
+                yield x
+            if error is not None:
+                raise error[0](error[1])
+        return g()
+    from pyvc import interp as I
+
+    def run(sink):
+        for x in items:
+            sink(x)
+        if error is not None:
+            raise I.PyExc(I.exc_obj(error[0], error[1]))
+        return NONE
+
+    return I.SGen(run)
+
+
+@scenario("ReadFile.load_flows", functions=[RF + ".load_flows"], lazy_generators=True)
+def s_readfile(vc):
+    import mitmproxy.ctx
+    if vc.mode == "native":
+        import logging
+        logging.disable(logging.CRITICAL)     # the real code logs "Flow file corrupted" on replays: keep the checker's stderr clean
+    k = vc.case("complete_flows_before_the_cut", [0, 1, 2, 3])
+    end = vc.case("file_end", ["clean", "flow_read_error"])
+    use_filter = vc.case("readfile_filter", [False, True])
+    flows = [vc.new("mitmproxy.tcp:TCPFlow", id=f"f{i}", keep=vc.sym_bool(f"matches{i}")) for i in range(k)]
+    rf = vc.new(RF, filter=vc.new("props.C37:StubFilter") if use_filter else None, _read_task=None)
+    fo = mk_file(vc, vc.sym_bytes("file_bytes"), 0)
+    mitmproxy.ctx.master = StubMaster()
+    err = (_cls(FRE), "Invalid data format.") if end == "flow_read_error" else None
+    vc.summary(IO + ":FlowReader.stream", lambda v, self_: gen_then(v, flows, err))
+    vc.summary("props.C37:StubMaster.load_flow", lambda v, *a: v.awaitable("load_flow", a[-1]))
+    loaded = []
+    finished = [False]
+
+    def on_yield(item):
+        if item[0] == "await" and item[1] == "load_flow":
+            loaded.append(item[2])
+        return None
+
+    out = vc.call(RF + ".load_flows", rf, fo, on_yield=on_yield)
+    expected = [f for f in flows if (not use_filter) or vc.branch(f.keep)]
+    vc.ensure("loaded.exactly_the_complete_matching_flows_in_order",
+              len(loaded) == len(expected) and all(a is e for a, e in zip(loaded, expected)))
+    if end == "clean":
+        vc.ensure("clean.returns_count", out.ok and vc.eq(out.result, len(expected)))
+    else:
+        # the complete flows above were handed over before this error is reported
+        vc.ensure("truncated.reports_flow_read_error", (not out.ok) and issubclass(out.raised_type(), _cls(FRE)))
+
+
+# =============================================================================================
 # Writers: one write of exactly enc(state) per flow (+ flush for the stream writer), nothing for filtered-out flows
 
 
@@ -522,7 +599,7 @@ def _stream_save_sequences(b, tier, seed):
         _check_truncations(b, "stream:" + "+".join(combo), final, bounds, _states(expected_written + remaining_in_set_order(fm, remaining)), sorted(set(range(0, len(final) + 1, step)) | set(bounds) | {x - 1 for x in bounds[1:]} | {x + 1 for x in bounds[:-1]}))
 
 
-def _readfile_addon(b, label, data, bounds, states, offsets):
+def _readfile_addon(b, label, data, bounds, states, offsets, flt=None, flows=None):
     """addons/readfile.py: ReadFile.load_flows hands exactly the complete flows to the master, then returns the count
     (clean end) or raises FlowReadException"""
     import io
@@ -537,11 +614,16 @@ def _readfile_addon(b, label, data, bounds, states, offsets):
             loaded.append(f)
 
         tctx.master.load_flow = load_flow
+        tctx.configure(rf, readfile_filter=flt)
+        keep = [True] * len(states)
+        if flt is not None:
+            from mitmproxy import flowfilter
+            keep = [bool(flowfilter.match(flt, f)) for f in flows]
         for cut in offsets:
             loaded.clear()
             k = sum(1 for e in bounds[1:] if e <= cut)
-            b.case((label, cut, "readfile"), nontrivial=cut not in bounds)
-            inp = {"file": label, "cut": cut, "via": "ReadFile.load_flows"}
+            b.case((label, cut, "readfile", flt), nontrivial=cut not in bounds)
+            inp = {"file": label, "cut": cut, "via": "ReadFile.load_flows", "readfile_filter": flt}
             try:
                 cnt = tctx.master.event_loop.run_until_complete(rf.load_flows(io.BytesIO(data[:cut])))
                 end = "clean"
@@ -550,8 +632,9 @@ def _readfile_addon(b, label, data, bounds, states, offsets):
             except Exception as e:  # noqa: BLE001
                 b.fail("readfile.only_flow_read_errors", inp, f"{type(e).__name__}: {e}")
                 continue
-            if _states(loaded) != states[:k] or (cnt is not None and cnt != k):
-                b.fail("readfile.exactly_the_complete_flows", inp, f"expected {k}, loaded {len(loaded)}, returned {cnt}")
+            exp = [st for st, kp in zip(states[:k], keep[:k]) if kp]
+            if _states(loaded) != exp or (cnt is not None and cnt != len(exp)):
+                b.fail("readfile.exactly_the_complete_flows", inp, f"expected {len(exp)} of the {k} complete flows, loaded {len(loaded)}, returned {cnt}")
             if cut in bounds and end != "clean":
                 b.fail("readfile.clean_end_at_record_boundary", inp, end)
         tctx.master._legacy_log_events.uninstall()   # the test master's log handler would outlive its (closed) loop
@@ -571,7 +654,8 @@ def bounded(tier, seed):
     from props import ioflows
     b = Bounded()
     b.rule = ("(1) files written by the real FlowWriter holding 1 flow of each of 10 type/shape kinds and mixed sequences of 3, read back by "
-              "the real FlowReader at EVERY truncation offset (BytesIO) and at sampled offsets through a real file (BufferedReader.peek path); "
+              "the real FlowReader at EVERY truncation offset (BytesIO) and at sampled offsets through a real file (BufferedReader.peek path) and "
+              "through the ReadFile addon (load_flows) without filter and with readfile_filter ~all / ~tcp | ~dns / ~http; "
               "(2) tnetstring.load vs an independent reference framing on all strings over '012:,~x' up to length 5 (6 thorough) plus 11..14 digit prefixes; "
               "(3) real Save addon driven through start/completion hooks of 2-3 flows of mixed types with shutdown at a seeded point, the stream's "
               "file object replaced by the recording FileModel: durable bytes checked after every hook, then every (sampled in quick) truncation offset. "
@@ -591,7 +675,9 @@ def bounded(tier, seed):
         data, bounds = ioflows.encode_flows(fl)
         _check_truncations(b, "+".join(mix), data, bounds, _states(fl), range(len(data) + 1))
         _check_truncations(b, "+".join(mix), data, bounds, _states(fl), sorted(set(range(0, len(data) + 1, 97)) | set(bounds)), via="file")
-        _readfile_addon(b, "+".join(mix), data, bounds, _states(fl), sorted(set(range(0, len(data) + 1, 53)) | set(bounds)))
+        offs = sorted(set(range(0, len(data) + 1, 53)) | set(bounds) | {x - 1 for x in bounds[1:]} | {x + 1 for x in bounds[:-1]})
+        for flt in (None, "~all", "~tcp | ~dns", "~http"):
+            _readfile_addon(b, "+".join(mix), data, bounds, _states(fl), offs, flt=flt, flows=fl)
     _load_vs_spec(b, tier)
     _stream_save_sequences(b, tier, seed)
     return b
